@@ -143,6 +143,9 @@ def run(ctx):
                 a, _, b = fi.get('tops', '-1:-1').partition(':')
                 if int(b) <= int(a):
                     return ('Relax: the new requirement resolves to version #%s, the old one resolved to #%s (real npm resolver, dist-tags included): not strictly upward' % (b, a))
+                if not bit(fm.get('spec'), int(b)):
+                    return ('Relax: the new requirement resolves to version #%s (real npm resolver), which is not within the configured level of the version the old one '
+                            'resolved to (#%s): the requirement admits more than the level allows' % (b, a))
                 if not bit(fm.get('spec'), int(r[1:])):
                     return 'Relax built the requirement from version #%s, which is not strictly above the highest matching version #%s with an allowed difference' % (r[1:], fm.get('last'))
             elif r != 'fail':
